@@ -376,7 +376,7 @@ fn f64_value(i: usize) -> f64 {
 }
 
 fn run(tier: Tier) -> Sink {
-    let nmax = tier.pick(500, 3000);
+    let nmax = tier.pick(500, 5000);
     let zt = ZTab { confs: vcheck::confs(tier).into_iter().map(|(k, l)| (k, l, z_of(k, l))).collect() };
     let ns: Vec<usize> = (0..=nmax).rev().collect();
     let mut s = par_judge(&ns, |&n, s| {
